@@ -22,7 +22,7 @@ LEVEL_TEXT = ("Seeded stateful exploration of log-edit histories on really simul
               "and the insert/remove round trip are checked after every operation.")
 LEVEL_NOTE = "Trusted: log_lengths() enumerates every per-step log attribute of the model; sampling evidence only."
 PROBES = ["op_insert", "op_remove", "insert_step0", "insert_beyond_end", "insert_duplicate_in_list", "insert_already_present",
-          "roundtrip_checked", "with_subproject_task", "with_facilities", "remove_with_beyond_end"]
+          "roundtrip_checked", "multi_insert_roundtrip_checked", "with_subproject_task", "with_facilities", "remove_with_beyond_end"]
 
 
 def budget(tier):
@@ -154,6 +154,12 @@ def run(spec):
     changed = False
     n_run = len(p.cost_list)
     absence_free = not any(0 <= a < n_run for a in spec["cfg"].get("absence", []))
+    base_dump = None  # logs at the last moment the result was absence-free; only inserts have happened since
+    if absence_free:
+        base_dump = D.dump(p, ix, live=False)
+        base_dump.pop("absence_time_list", None)
+    import random as _random
+    coin = _random.Random(spec.get("seed", 0) ^ 0x5EED)
     for oi, op in enumerate(spec.get("ops", [])):
         before = D.log_lengths(ix)
         n0 = common_len(before)
@@ -222,6 +228,20 @@ def run(spec):
             break
         if tagop == "remove":
             absence_free = True
+            if base_dump is not None and o.ok:
+                # everything inserted since the result was last absence-free has been removed again
+                res.count("multi_insert_roundtrip_checked")
+                dnow = D.dump(p, ix, live=False)
+                dnow.pop("absence_time_list", None)
+                diff = D.first_diff(base_dump, dnow)
+                if diff is not None:
+                    res.add("roundtrip", "C18.roundtrip.after_several_inserts",
+                            "ops %s: after inserting steps into an absence-free result (possibly in several calls) and removing them, the logs "
+                            "differ from before in %s; first at %s: %r vs %r" % (spec.get("ops")[: oi + 1], sorted(D.diff_attrs(base_dump, dnow))[:6],
+                                                                                 diff[0], diff[1], diff[2]), None)
+                    break
+            base_dump = D.dump(p, ix, live=False)
+            base_dump.pop("absence_time_list", None)
         else:
             absence_free = absence_free and not any(True for s_ in new if 0 <= s_)  # becomes true again after the round-trip remove below
         if tagop == "insert":
@@ -250,8 +270,8 @@ def run(spec):
                                     % (what, t.ID, i, t.remaining_work_amount_record_list[i], prev), i)
                         if int(t.state_record_list[i]) == D.WORKING:
                             res.add("inserted", "C18.inserted_step_task_WORKING", "%s: task %s is logged WORKING at inserted step %d" % (what, t.ID, i), i)
-            if dumpb is not None:
-                # round trip on an absence-free result
+            if dumpb is not None and coin.random() < 0.5:
+                # immediate round trip on an absence-free result (otherwise the inserts accumulate until the next remove op)
                 o2 = D.call(lambda: p.remove_absence_time_list())
                 res.count("roundtrip_checked")
                 if not o2.ok:
